@@ -27,26 +27,26 @@ TECH = {
 }
 
 TEXT = {
- "C01": "Every operator call on the real code is judged against an exact label-keyed reference. Exhaustive over all ordered pairs of ordered dimension subsets of a 3-letter (quick) / 4-letter (thorough) universe x 7 operators x length patterns; values are tagged (result names the entries combined), dyadic (==), random reals (derived tolerance) and NaN-tainted (dependency sets). 'All real values' is approached by tagged values + identical executed line sequences across value regimes (trace equivalence), not proved.",
- "C02": "Observed raise/warn outcome of check_mass_balance / check_flows vs an exact rational per-process balance on generated systems (self-loops, parallel/opposing flows, mixed dims, stocks with/without process, idle processes, no stocks, integer flows) with single-entry perturbations straddling the tolerance; the boundary itself is judged in the dyadic regime. Random exploration, not exhaustive.",
- "C03": "Conservation identity checked on every compute() of all stock classes/solvers over random lifetime models, parameter shapes and unit/constant/uneven grids, plus accept/reject probes of the library's own balance check and 'compute keeps its driver'. Random exploration.",
- "C04": "Relational: every observed operation is replayed on the real code with each participating array stored in every other dimension order (all k! x k! pairs up to 4 dims in the thorough tier) and must give the same entries under the same labels and the documented result order. Exhaustive over storage orders per operation configuration; configurations are a fixed list (thorough: all operand-dims pairs over 3 letters).",
- "C05": "Every assignment judged against the pre-state model: dims kept, outside entries bit-identical, source summed by label, missing source dimension / wrong-shape ndarray rejected, nothing changed on failure, ndarray copied, no aliasing with an array source; all selector-kind assignments x rhs kinds + assignment histories.",
- "C06": "Independent model of the key forms; exhaustive over all 3^n read and 4^n write selector-kind assignments (n=4 quick, 5 thorough) x length patterns x subset orders x key spellings, plus the must-raise classes, items_where and split.",
- "C07": "Every reduction/cast/share call judged by label against exact marginals/broadcasts; exhaustive over kept/summed subsets, cast target orders, cumsum letters and share subsets for every storage order of 3 (quick) / 4 (thorough) dims, three spellings of dimensions; composition laws.",
- "C08": "Invariants and equality (1e-11) with closed-form survival functions and independently computed Gauss-Lobatto rules on every sf/pdf read, using the parameters the model holds and the driver's by-label ground truth; all 9 shipped quadrature rules compared exhaustively; random models/grids/parameter shapes incl. exact age=lifetime ties.",
- "C09": "Cohort-table identities (sums, zero above the diagonal, inflow*dt*survival, monotone, per-cohort conservation) on every DSM compute() over the C03 matrix. Random exploration.",
- "C10": "Relational shadow runs: ID->SD (both solvers, fresh and shared lifetime model), SD->ID, manual==lapack, prescribed stock kept; normwise tolerance scaled by the condition number; ill-conditioned cases skipped and counted.",
- "C11": "to_df judged by an independent reader of the produced frame; from_df judged on frames built by the driver from ground truth (unique cell values) over layouts x header styles x index placement x permutations x omitted singles x CSV round trip x memory layouts x item orders, plus a 40 000-item dimension. Random exploration over a structured space.",
- "C12": "Fault injection at the input: every fault kind at several positions and combinations x 4 flag sets x 5 routes (from_df, set_values_from_df, CSV/Excel parameter readers, MFASystem.from_csv); expected outcome derived from the final frame by an independent reader; refused imports must leave the target bit-identical.",
- "C13": "Global invariant monitor on every wrapper exit plus whole-pool scan after each step of random programs with ~30% deliberately ill-formed steps; must-raise rules for constructors, set_values, whole-array assignment, stock and lifetime-model constructors.",
- "C14": "Lock-step ordered-list model on every DimensionSet/Dimension call; exhaustive over all ordered pairs of ordered subsets of 4 (quick) / 5 (thorough) letters x 8 binary operators; random in-place/out-of-place histories with independence probes and arrays built from the sets.",
- "C15": "Deep input snapshots (arrays, dimension sets, ndarrays, data frames, stocks, systems, plotters) compared after every non-in-place call; shares-memory/write-through and dims-edit probes on results; pool-wide aliasing scan over random programs; frames, system building, export and plotting workloads.",
- "C16": "Relational variant runs: every truncation point, linear combinations, scaling, all unit-impulse responses predicting f(x), every label slice alone, calendar shifts, impulse = survival column x interval length; inflow-driven at 1e-12*n_t, stock-driven condition-scaled.",
- "C17": "History monitor: fresh-twin comparison after every compute() in random sequences of driver writes / set_prms / reads / computes (incl. all-zero drivers), compute twice, and MFASystem scenario loops over stocks built from definitions (5 scenarios each) plus the shipped example system.",
- "C18": "Attribute-by-attribute comparison of systems built through the helpers and through from_csv / from_excel / from_data_reader from files the driver writes (orientations, headers, sheets), refusal of 14 kinds of ill-formed definitions, hostile and own-letter labels in dimension files.",
- "C19": "Export content (numpy/pandas dict, pickle, CSV) compared with the system snapshot by unique values, re-import through an independent reader and from_df, audit-hook file events (one file per array, inside the directory), system unchanged, MFADefinition.to_dfs cell by cell; hand-assembled systems and non-contiguous arrays included.",
- "C20": "Figure data read back from plotly/matplotlib objects and compared with a label-keyed reference: Sankey link multiset and node labels under slices, exclusions, colour splits and shuffled process dictionaries; array plotters for every assignment of 1-3 dims to x/subplot/line roles, names vs letters, x arrays, chart types.",
+ "C01": "Every operator call on the real code is judged against an exact label-keyed reference. Exhaustive over all ordered pairs of ordered dimension subsets of a 3-letter (quick) / 4-letter (thorough) universe x 7 operators x length patterns; values are tagged (result names the entries combined), dyadic (==), random reals (derived tolerance) and NaN-tainted (dependency sets). 'All real values' is approached by tagged values + identical executed line sequences across value regimes (trace equivalence), not proved. Also: operands of 10^4-10^6 entries (vectorised twin), narrow / wide integer dtypes, two letters carrying one name.",
+ "C02": "Observed raise/warn outcome of check_mass_balance / check_flows vs an exact rational per-process balance on generated systems (self-loops, parallel/opposing flows, mixed dims, stocks with/without process, idle processes, no stocks, integer flows) with single-entry perturbations straddling the tolerance; the boundary itself is judged in the dyadic regime. Random exploration, not exhaustive. Also: the same system object re-wired in place (refused check, repair, move, move back), re-keyed / shuffled / rebuilt-from-copies systems, many tiny residuals.",
+ "C03": "Conservation identity checked on every compute() of all stock classes/solvers over random lifetime models, parameter shapes and unit/constant/uneven grids, plus accept/reject probes of the library's own balance check and 'compute keeps its driver'. Random exploration. Also: far-tail lifetimes with large throughputs, refused compute then corrected inputs, look-alike offers of the lifetime model, bystander ring.",
+ "C04": "Relational: every observed operation is replayed on the real code with each participating array stored in every other dimension order (all k! x k! pairs up to 4 dims in the thorough tier) and must give the same entries under the same labels and the documented result order. Exhaustive over storage orders per operation configuration; configurations are a fixed list (thorough: all operand-dims pairs over 3 letters). Also: frames (incl. unnamed MultiIndex, mixed headers) and lifetime parameters over every subset of the model's dimensions in every order; large arrays; wide-magnitude values.",
+ "C05": "Every assignment judged against the pre-state model: dims kept, outside entries bit-identical, source summed by label, missing source dimension / wrong-shape ndarray rejected, nothing changed on failure, ndarray copied, no aliasing with an array source; all selector-kind assignments x rhs kinds + assignment histories. Also: sources of 10^5-10^6 entries, long list keys with varying sources, key objects reused across arrays, read-only / other-dtype / wide sources.",
+ "C06": "Independent model of the key forms; exhaustive over all 3^n read and 4^n write selector-kind assignments (n=4 quick, 5 thorough) x length patterns x subset orders x key spellings, plus the must-raise classes, items_where and split. Also: arrays of 10^4-10^6 entries with scrambled long dimensions, near-type keys, close float labels, key objects reused across arrays and copies.",
+ "C07": "Every reduction/cast/share call judged by label against exact marginals/broadcasts; exhaustive over kept/summed subsets, cast target orders, cumsum letters and share subsets for every storage order of 3 (quick) / 4 (thorough) dims, three spellings of dimensions; composition laws. Also: large arrays, narrow-integer totals (incl. after in-place writes), long cumsum axes, positional spellings.",
+ "C08": "Invariants and equality (1e-11) with closed-form survival functions and independently computed Gauss-Lobatto rules on every sf/pdf read, using the parameters the model holds and the driver's by-label ground truth; all 9 shipped quadrature rules compared exhaustively; random models/grids/parameter shapes incl. exact age=lifetime ties. Also: refused reads followed by corrected settings / new parameters, length-one-axis parameter arrays, half/single precision and integer parameters, copies of models, wide tables, bystander ring.",
+ "C09": "Cohort-table identities (sums, zero above the diagonal, inflow*dt*survival, monotone, per-cohort conservation) on every DSM compute() over the C03 matrix. Random exploration. Also: table behind the cohorts vs the distribution, caller's parameter buffers refilled before compute, refused compute then corrected inputs, shallow model copies, zero drivers, nearly unsolvable labels.",
+ "C10": "Relational shadow runs: ID->SD (both solvers, fresh and shared lifetime model), SD->ID, manual==lapack, prescribed stock kept; normwise tolerance scaled by the condition number; ill-conditioned cases skipped and counted. Also: to_stock_type route, solver switched on a used object, wide configurations (10^6-10^7 table entries), labels of very different magnitude judged on their own scale.",
+ "C11": "to_df judged by an independent reader of the produced frame; from_df judged on frames built by the driver from ground truth (unique cell values) over layouts x header styles x index placement x permutations x omitted singles x CSV round trip x memory layouts x item orders, plus a 40 000-item dimension. Random exploration over a structured space. Also: a complete 12 000-row table out of array order in six presentations, look-alike and missing rows, column type zoo, unnamed / foreign indexes.",
+ "C12": "Fault injection at the input: every fault kind at several positions and combinations x 4 flag sets x 5 routes (from_df, set_values_from_df, CSV/Excel parameter readers, MFASystem.from_csv); expected outcome derived from the final frame by an independent reader; refused imports must leave the target bit-identical. Also: one reader reused across rewritten files and for several parameters per call, hostile row indexes, inf values.",
+ "C13": "Global invariant monitor on every wrapper exit plus whole-pool scan after each step of random programs with ~30% deliberately ill-formed steps; must-raise rules for constructors, set_values, whole-array assignment, stock and lifetime-model constructors. Also: computes that cannot succeed, look-alike dimensions (other labels, same labels in another order), unstorable cells, the user's own lists edited mid-program.",
+ "C14": "Lock-step ordered-list model on every DimensionSet/Dimension call; exhaustive over all ordered pairs of ordered subsets of 4 (quick) / 5 (thorough) letters x 8 binary operators; random in-place/out-of-place histories with independence probes and arrays built from the sets. Also: sets of long dimensions (sizes to 2^62), pickled / copied sets, generator / dict constructions, same-named replacements, sets from empty().",
+ "C15": "Deep input snapshots (arrays, dimension sets, ndarrays, data frames, stocks, systems, plotters) compared after every non-in-place call; shares-memory/write-through and dims-edit probes on results; pool-wide aliasing scan over random programs; frames, system building, export and plotting workloads. Also: no-op requests on single-item dimensions, the same key on a fresh copy, generated plotter configurations, system checks with negative entries.",
+ "C16": "Relational variant runs: every truncation point, linear combinations, scaling, all unit-impulse responses predicting f(x), every label slice alone, calendar shifts, impulse = survival column x interval length; inflow-driven at 1e-12*n_t, stock-driven condition-scaled. Also: refused-then-valid sequences, zero drivers, shallow model copies, two live objects, look-alike offers, long and framed grids, bystander ring.",
+ "C17": "History monitor: fresh-twin comparison after every compute() in random sequences of driver writes / set_prms / reads / computes (incl. all-zero drivers), compute twice, and MFASystem scenario loops over stocks built from definitions (5 scenarios each) plus the shipped example system. Also: refused and degenerate set_prms / compute steps, singular labels, user-written models, two live objects, sibling grids judged against the closed form, first parameters in narrow dtypes.",
+ "C18": "Attribute-by-attribute comparison of systems built through the helpers and through from_csv / from_excel / from_data_reader from files the driver writes (orientations, headers, sheets), refusal of 14 kinds of ill-formed definitions, hostile and own-letter labels in dimension files. Also: every file route (csv, named / first sheet, data_reader, user-written reader), reader reuse after a refusal and for two definitions, user subclasses, missing sheets, Path objects, mixed-type label rows.",
+ "C19": "Export content (numpy/pandas dict, pickle, CSV) compared with the system snapshot by unique values, re-import through an independent reader and from_df, audit-hook file events (one file per array, inside the directory), system unchanged, MFADefinition.to_dfs cell by cell; hand-assembled systems and non-contiguous arrays included. Also: look-alike dimension names, second to_dfs after an in-place edit, tolerant flags, colliding earlier exports, long names, Path objects.",
+ "C20": "Figure data read back from plotly/matplotlib objects and compared with a label-keyed reference: Sankey link multiset and node labels under slices, exclusions, colour splits and shuffled process dictionaries; array plotters for every assignment of 1-3 dims to x/subplot/line roles, names vs letters, x arrays, chart types. Also: display names, a refused first plot, slices by names, earlier figures re-inspected, text labels made of digits.",
 }
 checks = []
 na = []
